@@ -323,6 +323,7 @@ pub fn run(ctx: &mut Ctx, _name: &str) {
     play_breaker(ctx, 1, 100, &[B::Allow, B::Allow, B::Fail(1), B::Tick(100), B::Allow, B::Ok(0), B::Fail(0)]);
     let depth = if ctx.thorough { 5 } else { 4 };
     for threshold in 1..=(if ctx.thorough { 4 } else { 2 }) { exhaustive_breaker(ctx, threshold, 100, depth); }
+    if ctx.thorough { for threshold in 1..=2 { exhaustive_breaker(ctx, threshold, 100, 6); } }
     let n = if ctx.thorough { 20000 } else { 1500 };
     for _ in 0..n { random_breaker(ctx); }
     let n = if ctx.thorough { 6000 } else { 500 };
